@@ -12,7 +12,9 @@ the reference machine in which an encoded result literally is the value it stand
 with its semantics over any machine (`run`). The spec-side answer of a history is
 `run valueMachine`: every decode of every slot answers `norm v` of the value the slot was
 made from, whatever happened in between; every stability question answers `same`; a
-decoded result changes only when it is itself mutated.
+decoded result changes only when it is itself mutated; an encode sees the value as it is at
+that moment (`mv` mutates an original between two encodes), a kept result the value as it
+was.
 
 Only the value type `V` and `norm` (Spec/JsonData.lean) are used; nothing of the encoder.
 Core Lean only.
@@ -103,6 +105,9 @@ inductive Step where
   | addKey (r : Nat)
   /-- `sh r`: result `r` as it is now -/
   | «show» (r : Nat)
+  /-- `mv ip i`: the ORIGINAL value `i` of interpreter `ip` is mutated in place (`aset` / `hset` of
+  its first element); later encodes of it must see the new value, kept results the old one -/
+  | setVal (ip i : Nat)
   deriving Repr, Inhabited
 
 inductive Out where
@@ -164,8 +169,12 @@ structure St (σ E : Type) where
   m : σ
   slots : List (Slot E)
   results : List (Option V)
+  /-- the values of the history as they are now, one copy per interpreter (each interpreter
+  builds its own objects; `mv` mutates one of them) -/
+  vals : List (List V)
 
-def St.init (M : Machine σ E) : St σ E := { m := M.init, slots := [], results := [] }
+def St.init (M : Machine σ E) (vals : List V) : St σ E :=
+  { m := M.init, slots := [], results := [], vals := [vals, vals] }
 
 /-- apply a mutation to result cell `r`; `none` = no such cell (malformed op) -/
 def mutate (st : St σ E) (r : Nat) (fn : V → Option V) : Option (St σ E × Out) :=
@@ -178,10 +187,9 @@ def mutate (st : St σ E) (r : Nat) (fn : V → Option V) : Option (St σ E × O
     | none => some (st, .na)
 
 /-- one step of a history on machine `M`; `none` = malformed op (an index out of range) -/
-def step (M : Machine σ E) (vals : List V) (st : St σ E) : Step → Option (St σ E × Out)
+def step (M : Machine σ E) (st : St σ E) : Step → Option (St σ E × Out)
   | .enc f ip i =>
-    if ip > 1 then none else
-    match vals[i]? with
+    match (st.vals[ip]?).bind (·[i]?) with
     | none => none
     | some v =>
       let r := M.encode f v st.m
@@ -232,17 +240,27 @@ def step (M : Machine σ E) (vals : List V) (st : St σ E) : Step → Option (St
     | none => none
     | some none => some (st, .na)
     | some (some v) => some (st, .val v)
+  | .setVal ip i =>
+    match st.vals[ip]? with
+    | none => none
+    | some l =>
+      match l[i]? with
+      | none => none
+      | some v =>
+        match setFirstV v with
+        | none => some (st, .na)
+        | some v' => some ({ st with vals := st.vals.set ip (l.set i v') }, .ok)
 
 /-- the answers of a history, step by step; `none` = malformed op -/
-def runFrom (M : Machine σ E) (vals : List V) : St σ E → List Step → Option (List Out)
+def runFrom (M : Machine σ E) : St σ E → List Step → Option (List Out)
   | _, [] => some []
   | st, s :: r =>
-    match step M vals st s with
+    match step M st s with
     | none => none
-    | some (st', o) => (runFrom M vals st' r).map (o :: ·)
+    | some (st', o) => (runFrom M st' r).map (o :: ·)
 
 def run (M : Machine σ E) (vals : List V) (steps : List Step) : Option (List Out) :=
-  runFrom M vals (St.init M) steps
+  runFrom M (St.init M vals) steps
 
 /-- **what the property demands of a history**: its answers on the reference machine -/
 def specRun (vals : List V) (steps : List Step) : Option (List Out) := run valueMachine vals steps
